@@ -22,6 +22,7 @@ YOUR EXTENSION TASK
 RULES
  * Never weaken, delete or rename an existing theorem, and never loosen an existing harness check or oracle; add to them. If you find an existing statement is wrong, tell me in your report instead of editing it away.
  * You may edit the files that belong to {pid} (its model/lemmas/props/driver files and harness/{lc}.py) and add new files. Do NOT edit shared files (harness/common.py, harness/run.py, harness/BUILDING.md, lean/QcelVerif/Lib/*, lean/lakefile.toml, check, MANIFEST.json, known_findings.json, DESIGN.md, AS_BUILT.md, tools/*) or files belonging to another property (import them read-only; if you need a variant, put it in a new file of your own). New Lean modules must be added to LEAN_TARGETS and every new property theorem to THEOREMS (fully qualified name + one-line statement in words) in harness/{lc}.py, and TRUSTED_BASE / ASSUMPTIONS / LEVEL_TEXT / RULE there must be updated to say exactly what is now proved, modelled, regenerated from the source, or still only differential — no more and no less.
+ * Other builders are working in parallel in their own copies and import this property's existing Lean files read-only: do NOT change the meaning, name or signature of any existing definition or theorem in Model/*.lean, Lemmas/*.lean, Props/*.lean (add new definitions, new files, or refactoring-equivalent copies proved equal to the old ones); driver and harness files of {pid} are yours to extend.
  * Lean: no sorry/admit/axiom/native_decide/bv_decide/implemented_by/unsafe/`maxHeartbeats 0`; `#print axioms` of every listed theorem must stay within propext, Classical.choice, Quot.sound (the harness audits this). Import single Mathlib modules, never `import Mathlib`. Model files that a driver imports must stay Mathlib-free. Theorems must hold for ALL inputs (no size bound) unless the quantifier is a finite shipped table; state each at full strength or name it `…_partial` with a `-- FULL:` comment; put a non-vacuity `example` beside every implication; label concrete `decide` examples as tests. Keep every single tactic call fast (< ~20 s); split lemmas rather than raising heartbeats much.
  * Zero false alarms: the oracle must demand exactly what the property statement says inside its quantifier. A model/implementation disagreement on the unchanged tree means the MODEL is wrong (fix it) unless the property itself is violated — then do not loosen anything: report it to me with a minimal reproducer, give it its own Finding kind, and make the check tolerate exactly that narrowly-matched class through `known_predicate` + a local known_findings.json entry {{"id": "...", "property": "{pid}", "kind": "<kind>", "what": "<one line>", "status": "open"}}.
  * Budget of the finished check: quick ≤ ~3 min wall, thorough ≤ ~20 min, on 16 cores shared with ~10 other workers (keep your builds modest: build single modules with `lake build QcelVerif.<Module>` inside lean/).
